@@ -29,16 +29,17 @@ def where(n):
 
 
 class Walk:
-    def __init__(self, repo):
-        self.path = os.path.join(repo, 't2data.py')
+    def __init__(self, repo, filename='t2data.py', classname='t2data'):
+        self.path = os.path.join(repo, filename)
         self.mod = tables.Module(self.path)
-        cls = [n for n in self.mod.tree.body if isinstance(n, ast.ClassDef) and n.name == 't2data']
-        if len(cls) != 1: raise Refusal('class t2data not found exactly once')
+        cls = [n for n in self.mod.tree.body if isinstance(n, ast.ClassDef) and n.name == classname]
+        if len(cls) != 1: raise Refusal('class %s not found exactly once in %s' % (classname, filename))
         self.cls = cls[0]
+        self.classname = classname
 
     def method(self, name):
         fs = [n for n in self.cls.body if isinstance(n, ast.FunctionDef) and n.name == name]
-        if len(fs) != 1: raise Refusal('method t2data.%s not found exactly once' % name)
+        if len(fs) != 1: raise Refusal('method %s.%s not found exactly once' % (self.classname, name))
         return fs[0]
 
     def ev(self, n):
@@ -596,6 +597,157 @@ self.generator[(generator.block, generator.name)] = self.generatorlist[-1]
 }
 
 
+GEOMETRY_MODELLED = {
+    'get_num_atmosphere_blocks': """
+return [1, self.num_columns, 0][self.atmosphere_type]
+""",
+    'setup_block_name_index': """
+self.block_name_list = []
+if self.num_layers > 0:
+    if self.atmosphere_type  ==  0:
+        self.block_name_list.append(
+            self.block_name(self.layerlist[0].name, self.atmosphere_column_name))
+    elif self.atmosphere_type == 1:
+        for col in self.columnlist:
+            self.block_name_list.append(
+                self.block_name(self.layerlist[0].name, col.name))
+    if self.block_order is None or self.block_order == 'layer_column':
+        self.block_name_list += self.block_name_list_layer_column()
+    elif self.block_order == 'dmplex':
+        self.block_name_list += self.block_name_list_dmplex()
+    else:
+        raise Exception('Unrecognised mulgrid block order: %s' % self.block_order)
+self.block_name_index = dict([(blk, i) for i, blk in enumerate(self.block_name_list)])
+""",
+    'block_name_list_layer_column': """
+names = []
+for lay in self.layerlist[1:]:
+    for col in [col for col in self.columnlist if col.surface > lay.bottom]:
+        blkname = self.block_name(lay.name, col.name)
+        names.append(blkname)
+return names
+""",
+    'block_name_list_dmplex': """
+blocknames = {6: [], 8: []}
+for lay in self.layerlist[1:]:
+    for col in [col for col in self.columnlist if col.surface > lay.bottom]:
+        blkname = self.block_name(lay.name, col.name)
+        num_block_nodes = 2 * col.num_nodes
+        try:
+            blocknames[num_block_nodes].append(blkname)
+        except KeyError:
+            raise Exception('Blocks with %d nodes not supported by DMPlex ordering' %
+                            num_block_nodes)
+return blocknames[8] + blocknames[6]
+""",
+}
+
+EFFECTIVE_INCONS = """
+default_incs = self.parameter['default_incons'][:]
+default_incs = trim_trailing_nones(default_incs)
+effective_incs = default_incs
+if self.indom or self.incon or incons:
+    effective_incs = self.grid.incons(default_incs)
+    if self.indom:
+        for blk in self.grid.blocklist:
+            if blk.rocktype.name in self.indom:
+                effective_incs[blk.name] = self.indom[blk.rocktype.name]
+    if self.incon:
+        for blkname in self.incon:
+            effective_incs[blkname] = self.incon[blkname][1]
+    if isinstance(incons, t2incon):
+        for blkinc in incons:
+            effective_incs[blkinc.block] = blkinc.variable
+return effective_incs
+"""
+
+INITIAL_LOOP = """
+for blkname in geo.block_name_list[geo.num_atmosphere_blocks:]:
+    primary = incons[blkname].variable
+    jsondata['initial']['primary'].append(primary[:num_primary])
+    jsondata['initial']['region'].append(primary_to_region(primary))
+    if tracer: jsondata['initial']['tracer'].append(primary[num_primary])
+"""
+
+BOUNDARY_LOOP = """
+for blk in self.grid.blocklist:
+    if not (0. < blk.volume < atmos_volume):
+        if isinstance(bdy_incons, t2incon):
+            pv = bdy_incons[blk.name].variable
+        else:
+            pv = bdy_incons
+        reg = primary_to_region(pv)
+        bc = {'primary': pv[:num_primary], 'region': reg, 'faces': []}
+        if tracer: bc['tracer'] = pv[num_primary]
+        for conname in blk.connection_name:
+            nz = -self.grid.connection[conname].dircos
+            vertical_connection = abs(nz) > vertical_tolerance
+            names = list(conname)
+            names.remove(blk.name)
+            interior_blkname = names[0]
+            interior_blk = self.grid.block[interior_blkname]
+            if 0. < interior_blk.volume < atmos_volume:
+                cell_index = geo.block_name_index[interior_blkname] - geo.num_atmosphere_blocks
+                if blk.centre is None:
+                    if vertical_connection:
+                        normal = np.array([0., 0., nz])
+                    else:
+                        raise Exception("Can't find normal vector for connection: " +
+                                        str(conname))
+                else:
+                    normal = blk.centre - interior_blk.centre
+                normal /= np.linalg.norm(normal)
+                if mesh_coords != 'xyz':
+                    if vertical_connection:
+                        if mesh_coords in ['xz', 'yz', 'rz']:
+                            normal = normal[[0,2]]
+                        elif mesh_coords == 'xy': normal = None
+                    else: normal = normal[[0,1]]
+                if normal is not None:
+                    bc['faces'].append({"cells": [cell_index],
+                                        "normal": list(normal)})
+        normals = np.array([spec['normal'] for spec in bc['faces']])
+        if bc['faces'] and np.isclose(normals, normals[0], rtol = 1.e-8).all():
+            allcells = []
+            for spec in bc['faces']:
+                allcells += spec['cells']
+            bc['faces'] = {"cells": allcells,
+                           "normal": bc['faces'][0]["normal"]}
+        if bc['faces']:
+            if isinstance(bc['faces'], list) and \
+               len(bc['faces']) == 1: bc['faces'] = bc['faces'][0]
+            jsondata['boundaries'].append(bc)
+"""
+
+
+def export_bookkeeping(repo, w):
+    """the statement lists the second part of WaiweraJson.v follows (block order, initial conditions, boundary faces)"""
+    import textwrap
+    g = Walk(repo, 'mulgrids.py', 'mulgrid')
+    for name, tmpl in GEOMETRY_MODELLED.items():
+        f = g.method(name)
+        if not src_eq(nodoc(f), textwrap.dedent(tmpl)):
+            raise Refusal('mulgrid.%s %s: the statement list differs from the modelled one (coq/C20/WaiweraJson.v)' % (name, where(f)))
+    f = w.method('effective_incons')
+    if not src_eq(nodoc(f), textwrap.dedent(EFFECTIVE_INCONS)):
+        raise Refusal('effective_incons %s: the statement list differs from the modelled one' % where(f))
+    f = w.method('initial_json')
+    loops = [n for n in ast.walk(f) if isinstance(n, ast.For) and isinstance(n.iter, ast.Subscript)
+             and isinstance(n.iter.value, ast.Attribute) and n.iter.value.attr == 'block_name_list']
+    if len(loops) != 1 or not src_eq(loops, textwrap.dedent(INITIAL_LOOP)):
+        raise Refusal('initial_json %s: the loop over the underground blocks differs from the modelled one' % where(f))
+    f = w.method('boundaries_json')
+    loops = [n for n in ast.walk(f) if isinstance(n, ast.For) and isinstance(n.iter, ast.Attribute) and n.iter.attr == 'blocklist']
+    if len(loops) != 1 or not src_eq(loops, textwrap.dedent(BOUNDARY_LOOP)):
+        raise Refusal('boundaries_json %s: the loop over the boundary blocks differs from the modelled one' % where(f))
+    f = w.method('json')
+    calls = [n.func.attr for n in ast.walk(f) if isinstance(n, ast.Call) and isinstance(n.func, ast.Attribute) and isinstance(n.func.value, ast.Name)
+             and n.func.value.id == 'self' and n.func.attr.endswith(('_json', 'effective_incons'))]
+    want = ['mesh_json', 'eos_json', 'timestepping_json', 'output_json', 'rocks_json', 'relative_permeability_json', 'capillary_pressure_json',
+            'effective_incons', 'initial_json', 'boundaries_json', 'generators_json']
+    if sorted(calls) != sorted(want): raise Refusal('json %s: calls %r differ from the modelled composition' % (where(f), calls))
+
+
 def hand_modelled(w, c):
     import textwrap
     holes = dict(c['gen'])
@@ -674,6 +826,7 @@ def collect(repo):
     c['eos'] = eos_tables(w)
     c['gj'] = generator_tables(w)
     hand_modelled(w, c)
+    export_bookkeeping(repo, w)
     f = w.method('convert_mulkom_heat_conductivity')
     if not src_eq(nodoc(f), 'for rt in self.grid.rocktypelist:\n rt.conductivity *= (1. - rt.porosity)'):
         raise Refusal('convert_mulkom_heat_conductivity: body differs from `conductivity *= (1. - porosity)` over rocktypelist')
